@@ -98,11 +98,15 @@ class Lexer:
         return self.nextToken < len(self.tokens)
 
     def next(self):
+        if not self.hasNext():
+            raise CklSyntaxError("Unexpected end of input", self.getPos())
         result = self.tokens[self.nextToken]
         self.nextToken += 1
         return result
 
     def peek(self):
+        if not self.hasNext():
+            raise CklSyntaxError("Unexpected end of input", self.getPos())
         return self.tokens[self.nextToken]
 
     def eat(self, n):
